@@ -13,7 +13,24 @@ from core import Case
 
 PID = "C10"
 LEAN_MODULES = ["KrroodVerif.Props.C10"]
-THEOREMS: list = []
+THEOREMS = [
+    "KrroodVerif.Eql.C10_trace_vis",
+    "KrroodVerif.Eql.C10_trace_rows",
+    "KrroodVerif.Eql.C10_trace_hasErr",
+    "KrroodVerif.Eql.C10_query_rows",
+    "KrroodVerif.Eql.C10_query_noErr",
+    "KrroodVerif.Eql.C10_prefix",
+    "KrroodVerif.Eql.C10_prefix_succ",
+    "KrroodVerif.Eql.C10_prefix_query",
+    "KrroodVerif.Eql.C10_pulled_mono",
+    "KrroodVerif.Eql.C10_pull_in_range",
+    "KrroodVerif.Eql.C10_pulled_le_domain",
+    "KrroodVerif.Eql.C10_pulled_upto_le_domain",
+    "KrroodVerif.Eql.C10_continuity",
+    "KrroodVerif.Eql.C10_continuity_prefix",
+    "KrroodVerif.Eql.C10_continuity_rows",
+    "KrroodVerif.Eql.C10_continuity_trace",
+]
 MODEL_FUNCTION = "Eql.traceQuery / Eql.traceE / Eql.uptoRow / Eql.pulled (Model/EqlTrace.lean)"
 TRUSTED = [
     "Lean 4.33 kernel; axioms of each theorem listed under coverage.theorems",
